@@ -1,8 +1,371 @@
 import Librfn.Model.ListHeap
 import Librfn.Spec.ListSeq
+import Librfn.Lemmas.ListHeap
+/-!
+# C09 — the intrusive linked list behaves as a sequence under every order of operations
+
+Model: `Librfn.Model.ListHeap` (explicit heap; every function of `list.c` transcribed statement by
+statement; `tail` is a raw pointer value that the C leaves stale — or sets to the bogus "address of
+the head field" — whenever the list becomes empty).
+Spec: `Librfn.Spec.ListSeq` (a `List Node` per list; an iterator is the predecessor it hangs off).
+
+`IsList h l xs` is the abstraction relation.  It says **nothing about `tail` while `xs = []`**, so
+every theorem below holds whatever junk the tail holds, and since the model turns a dereference of
+a non-node tail into the error `wild`, every `= .ok …` conclusion also says that *the stale tail is
+not dereferenced*.  Kernel-only proofs (no `bv_decide`).
+-/
 namespace Librfn.C09
 open Librfn.Model.ListHeap
+open Librfn.Lemmas.ListHeap
+open Librfn.Spec.ListSeq (AIter SState upto after TotalPreorder Sorted Free Pre InScope)
 
-theorem stub : (run 9 init [.insert 0 1, .push 0 2, .dump 0]).2 = [.unit, .unit, .nodes [2, 1]] := by decide
+/-- the cells of list `l` spell the sequence `xs`: the chain from `head` visits `xs` and ends in NULL,
+    no node occurs twice, and **only if `xs` is non-empty** `tail` is its last node -/
+structure IsList (h : Heap) (l : Lid) (xs : List Node) : Prop where
+  chain : Seg h.next (h.head l) xs none
+  nodup : xs.Nodup
+  tail : ∀ x, xs.getLast? = some x → h.tail l = .node x
+
+/-- what a call on list `l` leaves alone: the two fields of every other list and the link of every
+    node outside `touched` -/
+structure Frame (h h' : Heap) (l : Lid) (touched : List Node) : Prop where
+  head : ∀ l', l' ≠ l → h'.head l' = h.head l'
+  tail : ∀ l', l' ≠ l → h'.tail l' = h.tail l'
+  next : ∀ i, i ∉ touched → h'.next i = h.next i
+
+/-- **frame**: a list disjoint from what was touched is untouched -/
+theorem isList_frame {h h' : Heap} {l l' : Lid} {touched ys : List Node} (hl : IsList h l' ys)
+    (hf : Frame h h' l touched) (hne : l' ≠ l) (hd : ∀ y ∈ ys, y ∉ touched) : IsList h' l' ys :=
+  { chain := by
+      rw [hf.head l' hne]
+      exact seg_congr ys _ _ (fun y hy => hf.next y (hd y hy)) hl.chain
+    nodup := hl.nodup
+    tail := fun x hx => by rw [hf.tail l' hne]; exact hl.tail x hx }
+
+theorem frame_refl (h : Heap) (l : Lid) (t : List Node) : Frame h h l t :=
+  ⟨fun _ _ => rfl, fun _ _ => rfl, fun _ _ => rfl⟩
+
+/-! ### two heap lemmas that carry every mutator -/
+
+/-- linking a fresh node `n` in after the prefix `pre` -/
+theorem isList_insert_at {h h' : Heap} {l : Lid} {pre post : List Node} {n : Node}
+    (hl : IsList h l (pre ++ post)) (hn : n ∉ pre ++ post)
+    (hlink : load h' (linkAfter l pre) = some n)
+    (hnn : h'.next n = post.head?)
+    (hnext : ∀ x ∈ pre ++ post, pre.getLast? ≠ some x → h'.next x = h.next x)
+    (hhead : pre ≠ [] → h'.head l = h.head l)
+    (htail : h'.tail l = if post = [] then .node n else h.tail l) :
+    IsList h' l (pre ++ n :: post) := by
+  have hnd := hl.nodup
+  obtain ⟨m, hpre, hpost⟩ := (seg_append _ _ _ _).1 hl.chain
+  have hnd' := List.nodup_append.1 hnd
+  refine ⟨?_, ?_, ?_⟩
+  · rw [seg_append]
+    refine ⟨some n, ?_, rfl, ?_⟩
+    · exact seg_pre h h' l pre m (some n) hpre hnd'.1
+        (fun x hx hlast => hnext x (List.mem_append_left _ hx) hlast) hhead hlink
+    · rw [hnn, ← seg_head _ _ hpost]
+      refine seg_congr post _ _ (fun x hx => hnext x (List.mem_append_right _ hx) ?_) hpost
+      intro e
+      exact hnd'.2.2 x (List.mem_of_getLast? e) x hx rfl
+  · rw [List.nodup_append] at hnd ⊢
+    refine ⟨hnd.1, ?_, ?_⟩
+    · rw [List.nodup_cons]
+      exact ⟨fun hm => hn (List.mem_append_right _ hm), hnd.2.1⟩
+    · intro a ha b hb
+      rcases List.mem_cons.1 hb with rfl | hb
+      · intro e; exact hn (List.mem_append_left _ (e ▸ ha))
+      · exact hnd.2.2 a ha b hb
+  · intro x hx
+    rw [htail]
+    by_cases hp : post = []
+    · subst hp
+      rw [if_pos rfl]
+      simp [List.getLast?_append] at hx
+      rw [hx]
+    · rw [if_neg hp]
+      apply hl.tail
+      obtain ⟨c, r, rfl⟩ := List.exists_cons_of_ne_nil hp
+      simpa [List.getLast?_append, List.getLast?_cons_cons] using hx
+
+/-- unlinking the node `c` that follows the prefix `pre` -/
+theorem isList_remove_at {h h' : Heap} {l : Lid} {pre post : List Node} {c : Node}
+    (hl : IsList h l (pre ++ c :: post))
+    (hlink : load h' (linkAfter l pre) = post.head?)
+    (hnext : ∀ x ∈ pre ++ post, pre.getLast? ≠ some x → h'.next x = h.next x)
+    (hhead : pre ≠ [] → h'.head l = h.head l)
+    (htail : post ≠ [] → h'.tail l = h.tail l)
+    (htail' : post = [] → ∀ p, pre.getLast? = some p → h'.tail l = .node p) :
+    IsList h' l (pre ++ post) := by
+  have hnd := hl.nodup
+  obtain ⟨m, hpre, hc, hpost⟩ := (seg_append _ _ _ _).1 hl.chain
+  have hnd' := List.nodup_append.1 hnd
+  have hndc := List.nodup_cons.1 hnd'.2.1
+  refine ⟨?_, ?_, ?_⟩
+  · rw [seg_append]
+    refine ⟨post.head?, ?_, ?_⟩
+    · exact seg_pre h h' l pre m _ hpre hnd'.1
+        (fun x hx hlast => hnext x (List.mem_append_left _ hx) hlast) hhead hlink
+    · rw [← seg_head _ _ hpost]
+      refine seg_congr post _ _ (fun x hx => hnext x (List.mem_append_right _ hx) ?_) hpost
+      intro e
+      exact hnd'.2.2 x (List.mem_of_getLast? e) x (List.mem_cons_of_mem _ hx) rfl
+  · rw [List.nodup_append]
+    exact ⟨hnd'.1, hndc.2, fun a ha b hb => hnd'.2.2 a ha b (List.mem_cons_of_mem _ hb)⟩
+  · intro x hx
+    by_cases hp : post = []
+    · subst hp
+      rw [List.append_nil] at hx
+      exact htail' rfl x hx
+    · rw [htail hp]
+      apply hl.tail
+      obtain ⟨d, r, rfl⟩ := List.exists_cons_of_ne_nil hp
+      simpa [List.getLast?_append, List.getLast?_cons_cons] using hx
+
+/-- what `IsList` tells about the raw cells at a position -/
+theorem isList_load {h : Heap} {l : Lid} {pre post : List Node} (hl : IsList h l (pre ++ post)) :
+    load h (linkAfter l pre) = post.head? := load_linkAfter h l pre post hl.chain
+
+theorem isList_head {h : Heap} {l : Lid} {xs : List Node} (hl : IsList h l xs) : h.head l = xs.head? := by
+  have := isList_load (pre := []) (post := xs) (by simpa using hl)
+  simpa [load] using this
+
+theorem isList_next {h : Heap} {l : Lid} {pre post : List Node} {c : Node} (hl : IsList h l (pre ++ c :: post)) :
+    h.next c = post.head? := by
+  have := isList_load (pre := pre ++ [c]) (post := post) (by simpa using hl)
+  simpa [load] using this
+
+theorem isList_tail {h : Heap} {l : Lid} {a : List Node} {t : Node} (hl : IsList h l (a ++ [t])) :
+    h.tail l = .node t := hl.tail t (by simp)
+
+/-! ### list_insert, list_push, list_extract, list_peek, list_empty -/
+
+/-- **list_insert appends** — also to a list emptied by any earlier operation, whatever its tail holds —
+    touching only the old last node; the stale tail is not dereferenced (the result is `ok`) -/
+theorem insert_refines {h : Heap} {l : Lid} {xs : List Node} {n : Node}
+    (hl : IsList h l xs) (hn : n ∉ xs) (hnn : h.next n = none) :
+    ∃ h', insert h l n = .ok h' ∧ IsList h' l (xs ++ [n]) ∧ Frame h h' l xs := by
+  have hh := isList_head hl
+  rcases nil_or_snoc xs with rfl | ⟨a, t, rfl⟩
+  · simp only [List.head?_nil] at hh
+    refine ⟨setTail (setHead h l (some n)) l (.node n), by simp [Model.ListHeap.insert, hnn, hh], ?_, ?_⟩
+    · exact isList_insert_at (pre := []) (post := []) hl hn (by simp [load]) (by simp [hnn])
+        (by simp) (by simp) (by simp)
+    · exact ⟨fun l' e => by simp [e], fun l' e => by simp [e], fun i _ => by simp⟩
+  · obtain ⟨x, hx⟩ : ∃ x, h.head l = some x := by
+      rw [hh]; cases a <;> simp
+    have ht := isList_tail hl
+    have hne : n ≠ t := fun e => hn (by simp [e])
+    refine ⟨setTail (setNext h t (some n)) l (.node n), by simp [Model.ListHeap.insert, hnn, hx, ht], ?_, ?_⟩
+    · have := isList_insert_at (h' := setTail (setNext h t (some n)) l (.node n)) (pre := a ++ [t]) (post := [])
+        (by simpa using hl) (by simpa using hn) (by simp [load]) (by simp [hne, hnn])
+        (fun x hx hlast => by
+          have : x ≠ t := fun e => hlast (by simp [e])
+          simp [this])
+        (by simp) (by simp)
+      simpa using this
+    · exact ⟨fun l' e => by simp, fun l' e => by simp [e], fun i hi => by
+        have : i ≠ t := fun e => hi (by simp [e])
+        simp [this]⟩
+
+/-- **list_push prepends**, again whatever the tail of an empty list holds; only the new node is written -/
+theorem push_refines {h : Heap} {l : Lid} {xs : List Node} {n : Node}
+    (hl : IsList h l xs) (hn : n ∉ xs) (hnn : h.next n = none) :
+    ∃ h', push h l n = .ok h' ∧ IsList h' l (n :: xs) ∧ Frame h h' l [n] := by
+  have hh := isList_head hl
+  cases xs with
+  | nil =>
+    simp only [List.head?_nil] at hh
+    refine ⟨setHead (setTail h l (.node n)) l (some n), by simp [push, hnn, hh], ?_, ?_⟩
+    · exact isList_insert_at (pre := []) (post := []) hl hn (by simp [load]) (by simp [hnn])
+        (by simp) (by simp) (by simp)
+    · exact ⟨fun l' e => by simp [e], fun l' e => by simp [e], fun i _ => by simp⟩
+  | cons x r =>
+    simp only [List.head?_cons] at hh
+    refine ⟨setHead (setNext h n (some x)) l (some n), by simp [push, hnn, hh], ?_, ?_⟩
+    · exact isList_insert_at (pre := []) (post := x :: r) hl hn (by simp [load]) (by simp)
+        (fun y hy _ => by
+          have : y ≠ n := fun e => hn (by simpa [e] using hy)
+          simp [this])
+        (by simp) (by simp)
+    · exact ⟨fun l' e => by simp [e], fun l' e => by simp, fun i hi => by
+        have : i ≠ n := fun e => hi (by simp [e])
+        simp [this]⟩
+
+/-- **list_extract pops the head**: returns NULL on an empty list, else the first node, whose link is
+    cleared (immediately reusable).  The tail is left stale when the list becomes empty. -/
+theorem extract_refines {h : Heap} {l : Lid} {xs : List Node} (hl : IsList h l xs) :
+    match xs with
+    | [] => extract h l = (h, none)
+    | x :: r => ∃ h', extract h l = (h', some x) ∧ IsList h' l r ∧ h'.next x = none ∧ Frame h h' l [x] := by
+  have hh := isList_head hl
+  cases xs with
+  | nil => simp only [List.head?_nil] at hh; simp [extract, hh]
+  | cons x r =>
+    simp only [List.head?_cons] at hh
+    have hnx : h.next x = r.head? := isList_next (pre := []) hl
+    have hnd := List.nodup_cons.1 hl.nodup
+    refine ⟨setNext (setHead h l (h.next x)) x none, by simp [extract, hh], ?_, by simp, ?_⟩
+    · exact isList_remove_at (pre := []) (post := r) (c := x) hl (by simp [load, hnx])
+        (fun y hy _ => by
+          have : y ≠ x := fun e => hnd.1 (by simpa [e] using hy)
+          simp [this])
+        (by simp) (by simp) (by simp)
+    · exact ⟨fun l' e => by simp [e], fun l' e => by simp, fun i hi => by
+        have : i ≠ x := fun e => hi (by simp [e])
+        simp [this]⟩
+
+theorem peek_refines {h : Heap} {l : Lid} {xs : List Node} (hl : IsList h l xs) : peek h l = xs.head? :=
+  isList_head hl
+
+theorem empty_refines {h : Heap} {l : Lid} {xs : List Node} (hl : IsList h l xs) : empty h l = xs.isEmpty := by
+  unfold empty; rw [isList_head hl]; cases xs <;> rfl
+
+/-! ### iterators: `it = ⟨linkAfter l pre, l⟩` stands just after the prefix `pre` of list `l` -/
+
+theorem iterate_refines {h : Heap} {l : Lid} {xs : List Node} (hl : IsList h l xs) :
+    iterate h l = (⟨linkAfter l [], l⟩, xs.head?) := by
+  simp [iterate, isList_head hl]
+
+/-- **list_iterator_next** steps over the current node and returns the one after it; past the end it
+    stays where it is and returns NULL -/
+theorem iteratorNext_refines {h : Heap} {l : Lid} {pre post : List Node} (hl : IsList h l (pre ++ post)) :
+    iteratorNext h ⟨linkAfter l pre, l⟩ =
+      match post with
+      | [] => (⟨linkAfter l pre, l⟩, none)
+      | c :: r => (⟨linkAfter l (pre ++ [c]), l⟩, r.head?) := by
+  have hld := isList_load hl
+  cases post with
+  | nil => simp only [List.head?_nil] at hld; simp [iteratorNext, hld]
+  | cons c r =>
+    simp only [List.head?_cons] at hld
+    simp [iteratorNext, hld, isList_next hl]
+
+/-- reading the iterator's link gives its current node -/
+theorem cur_refines {h : Heap} {l : Lid} {pre post : List Node} (hl : IsList h l (pre ++ post)) :
+    load h (linkAfter l pre) = post.head? := isList_load hl
+
+theorem linkAfter_ne_nextOf {l : Lid} {pre : List Node} {n : Node} (hn : n ∉ pre) :
+    linkAfter l pre ≠ .nextOf n := by
+  rw [Ne, linkAfter_eq_nextOf]
+  exact fun e => hn (List.mem_of_getLast? e)
+
+/-- **list_iterator_insert** links the node in at the iterator's position (anywhere, including past the
+    end, where it also moves the tail); the iterator then points at the new node -/
+theorem iteratorInsert_refines {h : Heap} {l : Lid} {pre post : List Node} {n : Node}
+    (hl : IsList h l (pre ++ post)) (hn : n ∉ pre ++ post) :
+    IsList (iteratorInsert h ⟨linkAfter l pre, l⟩ n) l (pre ++ n :: post) ∧
+    Frame h (iteratorInsert h ⟨linkAfter l pre, l⟩ n) l (n :: pre) ∧
+    load (iteratorInsert h ⟨linkAfter l pre, l⟩ n) (linkAfter l pre) = some n := by
+  have hld := isList_load hl
+  have hnpre : n ∉ pre := fun e => hn (List.mem_append_left _ e)
+  have hk := linkAfter_ne_nextOf (l := l) hnpre
+  have key : ∀ h2 : Heap, h2 = setNext (store h (linkAfter l pre) (some n)) n post.head? →
+      iteratorInsert h ⟨linkAfter l pre, l⟩ n = (if post = [] then setTail h2 l (.node n) else h2) := by
+    intro h2 e
+    simp only [iteratorInsert, hld]
+    cases post <;> simp [e]
+  rw [key _ rfl]
+  have hlink : ∀ h2 : Heap, h2.next = (setNext (store h (linkAfter l pre) (some n)) n post.head?).next →
+      h2.head = (store h (linkAfter l pre) (some n)).head → load h2 (linkAfter l pre) = some n := by
+    intro h2 e1 e2
+    rw [load_linkAfter_cases]
+    cases hg : pre.getLast? with
+    | none => dsimp only; rw [e2, store_head]; simp [linkAfter, hg]
+    | some p =>
+      have hpn : p ≠ n := fun e => hnpre (e ▸ List.mem_of_getLast? hg)
+      dsimp only; rw [e1, setNext_next, if_neg hpn, store_next]; simp [linkAfter, hg]
+  refine ⟨?_, ?_, ?_⟩
+  · refine isList_insert_at hl hn ?_ ?_ ?_ ?_ ?_
+    · split <;> exact hlink _ rfl rfl
+    · split <;> simp
+    · intro x hx hlast
+      have hxn : x ≠ n := fun e => hn (e ▸ hx)
+      have : linkAfter l pre ≠ .nextOf x := by rw [Ne, linkAfter_eq_nextOf]; exact hlast
+      split <;> simp [hxn, store_next, this]
+    · intro hp
+      have : linkAfter l pre ≠ .headOf l := by rw [Ne, linkAfter_eq_headOf]; exact fun e => hp e.1
+      split <;> simp [store_head, this]
+    · split <;> simp [*]
+  · refine ⟨fun l' e => ?_, fun l' e => ?_, fun i hi => ?_⟩
+    · have : linkAfter l pre ≠ .headOf l' := by rw [Ne, linkAfter_eq_headOf]; exact fun e' => e e'.2.symm
+      split <;> simp [store_head, this]
+    · split <;> simp [e]
+    · have hin : i ≠ n := fun e => hi (by simp [e])
+      have : linkAfter l pre ≠ .nextOf i := by
+        rw [Ne, linkAfter_eq_nextOf]; exact fun e => hi (List.mem_cons_of_mem _ (List.mem_of_getLast? e))
+      split <;> simp [hin, store_next, this]
+  · split <;> exact hlink _ rfl rfl
+
+/-- **list_iterator_remove** unlinks the current node `c`, returns the node after it, clears `c`'s link
+    (immediately reusable) and moves the tail back when `c` was the last node — to the bogus
+    "address of head" value when `c` was the only one, which `IsList` of the now empty list tolerates -/
+theorem iteratorRemove_refines {h : Heap} {l : Lid} {pre post : List Node} {c : Node}
+    (hl : IsList h l (pre ++ c :: post)) :
+    ∃ h', iteratorRemove h ⟨linkAfter l pre, l⟩ = .ok (h', post.head?) ∧ IsList h' l (pre ++ post) ∧
+      h'.next c = none ∧ Frame h h' l (c :: pre) := by
+  have hld : load h (linkAfter l pre) = some c := isList_load hl
+  have hnc := isList_next hl
+  have hnd := List.nodup_append.1 hl.nodup
+  have hcpre : c ∉ pre := fun e => hnd.2.2 c e c (by simp) rfl
+  have hcpost : c ∉ post := (List.nodup_cons.1 hnd.2.1).1
+  have hk := linkAfter_ne_nextOf (l := l) hcpre
+  -- the conditional tail update, as one write
+  let t1 : Tail := if h.tail l = .node c then containerOf (linkAfter l pre) else h.tail l
+  have h1eq : (if h.tail l = .node c then setTail h l (containerOf (linkAfter l pre)) else h) = setTail h l t1 := by
+    by_cases e : h.tail l = .node c
+    · simp [t1, e]
+    · simp only [t1, if_neg e]; exact (setTail_self h l).symm
+  let h3 : Heap := setNext (store (setTail h l t1) (linkAfter l pre) post.head?) c none
+  have hlink : load h3 (linkAfter l pre) = post.head? := by
+    rw [load_linkAfter_cases]
+    cases hg : pre.getLast? with
+    | none => simp [h3, store_head, linkAfter, hg]
+    | some p =>
+      have hpc : p ≠ c := fun e => hcpre (e ▸ List.mem_of_getLast? hg)
+      simp [h3, hpc, store_next, linkAfter, hg]
+  have hrun : iteratorRemove h ⟨linkAfter l pre, l⟩ = .ok (h3, post.head?) := by
+    simp only [iteratorRemove, hld, h1eq]
+    rw [← hlink]
+    simp [h3, hnc]
+  refine ⟨h3, hrun, ?_, by simp [h3], ?_⟩
+  · refine isList_remove_at hl hlink ?_ ?_ ?_ ?_
+    · intro x hx hlast
+      have hxc : x ≠ c := by
+        intro e; subst e
+        rcases List.mem_append.1 hx with hx | hx
+        · exact hcpre hx
+        · exact hcpost hx
+      have : linkAfter l pre ≠ .nextOf x := by rw [Ne, linkAfter_eq_nextOf]; exact hlast
+      simp [h3, hxc, store_next, this]
+    · intro hp
+      have : linkAfter l pre ≠ .headOf l := by rw [Ne, linkAfter_eq_headOf]; exact fun e => hp e.1
+      simp [h3, store_head, this]
+    · intro hp
+      obtain ⟨d, r, rfl⟩ := List.exists_cons_of_ne_nil hp
+      obtain ⟨z, hz⟩ : ∃ z, (d :: r).getLast? = some z := by
+        cases hg : (d :: r).getLast? with
+        | none => simp at hg
+        | some z => exact ⟨z, rfl⟩
+      have htl := hl.tail z (by simpa [List.getLast?_append, List.getLast?_cons_cons] using hz)
+      have hzc : z ≠ c := fun e => hcpost (e ▸ List.mem_of_getLast? hz)
+      simp [h3, t1, htl, hzc]
+    · intro hp p hg
+      subst hp
+      have htl := isList_tail (a := pre) (t := c) hl
+      simp [h3, t1, htl, linkAfter, hg, containerOf]
+  · refine ⟨fun l' e => ?_, fun l' e => by simp [h3, e], fun i hi => ?_⟩
+    · have : linkAfter l pre ≠ .headOf l' := by rw [Ne, linkAfter_eq_headOf]; exact fun e' => e e'.2.symm
+      simp [h3, store_head, this]
+    · have hic : i ≠ c := fun e => hi (by simp [e])
+      have : linkAfter l pre ≠ .nextOf i := by
+        rw [Ne, linkAfter_eq_nextOf]; exact fun e => hi (List.mem_cons_of_mem _ (List.mem_of_getLast? e))
+      simp [h3, hic, store_next, this]
+
+/-- `list_iterator_remove` with no current node (iterator past the end, or empty list) fails its assert -/
+theorem iteratorRemove_at_end {h : Heap} {l : Lid} {pre : List Node} (hl : IsList h l pre) :
+    iteratorRemove h ⟨linkAfter l pre, l⟩ = .error .assertFail := by
+  have hld : load h (linkAfter l pre) = none := isList_load (pre := pre) (post := []) (by simpa using hl)
+  simp [iteratorRemove, hld]
 
 end Librfn.C09
